@@ -46,7 +46,7 @@ Print Assumptions C01_x_kick_conserves.
     spacing [delta <> 0], every uniform axis [p (j+1) = p j + delta] (any [pmin]) and every
     FPType [v] (0 none, 1 damping_only, 2 diffusion_only, 3 full). *)
 From Coq Require Import Lia.
-From Inovesa Require Import Gen.Gen_FPStencil Model.FokkerPlanck Proofs.FokkerPlanckP.
+From Inovesa Require Import Gen.Gen_FPStencil Model.FokkerPlanck Proofs.FPGridP Proofs.FokkerPlanckP.
 
 (** column sums of the 3-point operator: the total weight with which input cell [k] of an energy
     column enters the output column is one, for every interior [k] *)
